@@ -218,7 +218,11 @@ def verify_function(reg, sources, key, canary=True):
                 raise CheckerError(f"precondition of {key} is unsatisfiable (vacuous contract)")
         old_heap = dict(st.heap)
         vars_ = {}
-        calls.bind_args(ex, ctx, st, fdef, args, {}, fdef, vars_)
+        free_ = set(getattr(c, "free", ()))
+        calls.bind_args(ex, ctx, st, fdef, [a for p_, a in zip(c.params, args) if p_ not in free_], {}, fdef, vars_)
+        for p_, a in zip(c.params, args):
+            if p_ in free_:
+                vars_[p_] = a  # free variable of a nested function: an arbitrary value of the declared type
         fr = Frame(vars_, None, scope, qual)
         st.frames = [fr]
         outcome, value = "return", NONE
@@ -258,9 +262,7 @@ def verify_function(reg, sources, key, canary=True):
             cur_len = st.heap.get("$len")
             if cur_len is not None:
                 was_len = _hl(old_heap, "$len")
-                # the trace is a pre-existing object (ids >= 0); objects allocated by the function have negative ids
-                g = simp(z3.Implies(_fx.FS_TRACE >= 0,
-                                    z3.Select(cur_len, _fx.FS_TRACE) == z3.Select(was_len, _fx.FS_TRACE)))
+                g = simp(z3.Select(cur_len, _fx.FS_TRACE) == z3.Select(was_len, _fx.FS_TRACE))
                 if not z3.is_true(g):
                     ctx.oblige(f"{qual}#frame:fs-trace", g, {"kind": "frame"})
         if outcome == "return":
